@@ -873,11 +873,15 @@ def st_soc(tier):
         T = draw(st.sampled_from(TS))
         ops = []
         for _ in range(draw(st.integers(3, 10 if tier == "quick" else 24))):
-            k = draw(st.sampled_from(["u", "u", "s", "s", "c"]))
+            k = draw(st.sampled_from(["u", "u", "s", "s", "c", "r"]))
             o = {"k": k, "we": draw(st.integers(0, 1)), "word": draw(st.integers(0, 15)), "dat": draw(st.integers(0, 0x7fffffff)),
                  "gap": draw(st.sampled_from([0, 0, 1, 3])), "hole": draw(st.sampled_from([0x70000000, 0x20000000, 0x01000100, 0x00010000]))}
             if std == "axi-lite":
                 o["bp"] = draw(st.sampled_from([0, 0, 1, 3]))
+            if k == "r":
+                # the controller's reset register: hold / release the CPU reset bit (bit 1; bit 0 would reset the SoC) - errors of the
+                # other masters are counted all the same
+                o["we"], o["dat"] = 1, draw(st.sampled_from([2, 2, 0]))
             ops.append(o)
         # the counter's start value: 0, or close to its maximum (the state after 2**32-k earlier errors) to meet the saturation
         start = draw(st.sampled_from([0, 0, 0, 0xffffffff, 0xfffffffe, 0xfffffffd, 0xfffffffb]))
@@ -920,7 +924,7 @@ def run_soc(case):
     pr = bench.Probe([soc.ctrl._bus_errors.status, ic.timeout.error])
 
     def addr(o):
-        return o["hole"] + 4 * o["word"] if o["k"] == "u" else (sram + 4 * o["word"] if o["k"] == "s" else csr + 4)
+        return o["hole"] + 4 * o["word"] if o["k"] == "u" else (sram + 4 * o["word"] if o["k"] == "s" else (csr + 4 if o["k"] == "c" else csr))
 
     ops = case["ops"]
     limit = 60 + len(ops) * (T + 14)
@@ -946,6 +950,9 @@ def run_soc(case):
                 continue
             if a0 - s0 == T and we:
                 return skip("write answered in the expiry cycle: ambiguous")
+            if o["k"] == "r":
+                cls.append("cpu-reset-bit-written")
+                continue
             if we:
                 if o["k"] == "s":
                     mem[o["word"]] = o["dat"]
